@@ -45,6 +45,20 @@ func (ex *Executor) endSegment(st *State, fr *Frame, to string) {
 	}
 	hasTable := len(fromRows) > 0 || (to == "exit" && len(spec.ExitRows) > 0)
 	if !hasTable {
+		// a contract without any event table (pre/postconditions only) describes a function without observable effects:
+		// a channel operation, a spawned goroutine or a call of an effectful function in it is not covered by the contract
+		if !spec.anyTable() && len(spec.CallReqs) == 0 && len(spec.Observe) == 0 && len(spec.Opaque) == 0 {
+			for _, e := range ex.segmentEvents(st) {
+				switch e.Kind {
+				case "call", "go", "send", "close", "recv":
+					what := e.Kind
+					if e.Fn != "" {
+						what += " " + e.Fn
+					}
+					ex.addStructural(st, "effects", what+" "+e.Pos, false, "the contract of "+spec.Key+" has no event table, but the function performs "+what+" at "+e.Pos, nil)
+				}
+			}
+		}
 		return
 	}
 	evs := ex.segmentEvents(st)
@@ -87,6 +101,19 @@ func (ex *Executor) endSegment(st *State, fr *Frame, to string) {
 	}
 	text := fmt.Sprintf("segment %s -> %s with events [%s] is allowed by the table (structural candidates: %s)", from, to, strings.Join(descr, "; "), strings.Join(matched, ","))
 	ex.addObl(st, "seg", from+"->"+to, Or(alts...), text, nil)
+}
+
+// anyTable: the contract has at least one event row
+func (s *FuncSpec) anyTable() bool {
+	if len(s.EntryRows) > 0 || len(s.ExitRows) > 0 {
+		return true
+	}
+	for _, l := range s.Loops {
+		if len(l.Rows) > 0 {
+			return true
+		}
+	}
+	return false
 }
 
 func (ex *Executor) segmentEvents(st *State) []*Event {
